@@ -31,7 +31,7 @@ def lcMessagesDir (path : List Char) : Option (List Char) :=
 
 /-- the base name without `.po` -/
 def poStem (path : List Char) : Option (List Char) :=
-  if ".po".toList.isSuffixOf path then some (splitext (basename path)).1 else none
+  if (splitext (basename path)).2 = ".po".toList then some (splitext (basename path)).1 else none
 
 /-- how much a source outside the header is to be believed -/
 inductive Strength where
